@@ -13,21 +13,16 @@ from harness.translators import sqltables
 
 MODULE = "CddVerif.Properties.C05"
 THEOREMS = [
-    "C05.one_pk",
-    "C05.at_least_one_pk",
-    "C05.ensurePK_keeps_columns",
-    "C05.ensurePK_replaces_id",
+    # (i) exactly one primary key per emission
+    "C05.one_pk", "C05.at_least_one_pk", "C05.one_pk_table", "C05.one_pk_class", "C05.one_pk_hybrid",
+    # the regenerated type tables
     "C05.tables_agree",
-    "C05.column_round_trip",
-    "C05.round_trip_view",
-    "C05.normDoc_clean",
-    "C05.columns_round_trip",
-    "C05.dict_becomes_optional",
-    "C05.single_literal_lost",
-    "C05.variants_agree",
-    "C05.variants_agree_parsed",
-    "C05.table_to_class_round_trip",
-    "C05.underscore_names_are_columns",
+    # (ii) round trip, the normalisations, where it fails
+    "C05.column_round_trip", "C05.round_trip_view", "C05.normVal_plain", "C05.normDoc_clean", "C05.columns_round_trip", "C05.all_variants_round_trip",
+    "C05.ensurePK_keeps_columns", "C05.ensurePK_names",
+    "C05.ensurePK_replaces_id", "C05.dict_becomes_optional", "C05.single_literal_lost", "C05.C05_full_false",
+    # (iii) variant agreement, class <-> Table normalisation
+    "C05.variants_agree", "C05.table_to_class_round_trip", "C05.underscore_names_are_columns",
 ]
 NoneStr = "```(None)```"
 VARIANTS = ("class", "table", "hybrid")
@@ -594,14 +589,8 @@ def norm_ws(s):
 
 def trigger(case):
     """coarse cause classes present in the input (for errors that cannot be attributed to one column)"""
-    t = []
-    for _, p in case["params"]:
-        c = typ_class(p.get("typ_j")) if "typ_j" in p else "<absent>"
-        if "Literal[1]" in c:
-            t.append("single-member-literal")
-    if case.get("returns"):
-        t.append("returns")
-    return "+".join(sorted(set(t))) or "none"
+    lit1 = any("Literal[1]" in typ_class(p["typ_j"]) for _, p in case["params"] if p.get("typ_j"))
+    return {"single_literal": lit1, "returns": bool(case.get("returns"))}
 
 
 def oracle(case, res):
@@ -609,19 +598,18 @@ def oracle(case, res):
     names = [nm for nm, _ in case["params"]]
     inp = dict(case["params"])
     had_pk = any(doc_view(p.get("doc"))[0] for p in inp.values())
-    region = {"style": case["style"], "force": case["force"]}
     trig = trigger(case)
     parsed = {}
     for kind in VARIANTS:
         o = res[kind]
         if "emit_error" in o:
-            yield {"kind": "emit-error", "variant": kind, "error": o["emit_error"], "trigger": trig}, "%s emission raises %s" % (kind, o["emit_error"])
+            yield dict({"kind": "emit-error", "variant": kind, "error": o["emit_error"]}, **trig), "%s emission raises %s" % (kind, o["emit_error"])
             continue
         # exactly one primary key in every emission
         if o["n_pk"] != 1:
             yield {"kind": "primary-key-count", "variant": kind, "count": min(o["n_pk"], 2)}, "%s emission has %d primary keys" % (kind, o["n_pk"])
         if "parse_error" in o:
-            yield ({"kind": "parse-error", "variant": kind, "error": o["parse_error"], "trigger": trig, "style": case["style"] if case.get("returns") else "any"},
+            yield (dict({"kind": "parse-error", "variant": kind, "error": o["parse_error"], "style": case["style"] if case.get("returns") else "any"}, **trig),
                    "%s emission cannot be parsed back: %s" % (kind, o["parse_error"]))
             continue
         pr = o["parsed"]
@@ -682,9 +670,28 @@ def oracle(case, res):
                        "header doc differs between the variants: %s" % docs)
     t = res["table"]
     if "t2c_error" in t:
-        yield {"kind": "table-to-class", "error": t["t2c_error"], "trigger": trig}, "sqlalchemy_table_to_class / parse of its result raises %s" % t["t2c_error"]
+        yield dict({"kind": "table-to-class", "error": t["t2c_error"]}, **trig), "sqlalchemy_table_to_class / parse of its result raises %s" % t["t2c_error"]
     elif "t2c_parsed" in t and "parsed" in t and json.dumps(t["t2c_parsed"], sort_keys=True) != json.dumps(t["parsed"], sort_keys=True):
         yield {"kind": "table-to-class", "field": "columns"}, "parse(table_to_class(table)) != parse(table)"
+
+
+# one minimal witness per known finding, replayed on the real code on every run
+def _w(params, doc="", returns=None, style="rest", force=False):
+    return {"name": "Foo", "doc": doc, "returns": returns, "style": style, "force": force, "markers": ["witness"] * len(params),
+            "params": [[nm, dict(p, typ=render_typ(p["typ_j"]))] for nm, p in params]}
+
+
+WITNESSES = [
+    ("C05-dict-optional", _w([["cfg", {"typ_j": {"n": "dict"}}]])),
+    ("C05-literal1-type-lost", _w([["k", {"typ_j": {"lit": ["a"]}}]])),
+    ("C05-literal1-optional-keyerror", _w([["k", {"typ_j": {"opt": {"lit": ["a"]}}}]])),
+    ("C05-literal1-fk-assertion", _w([["k", {"typ_j": {"lit": ["a"]}, "doc": "[FK(t.c)] x"}]])),
+    ("C05-literal1-t2c-keyerror", _w([["k", {"typ_j": {"opt": {"lit": ["a"]}}}]])),
+    ("C05-literal1-t2c-assertion", _w([["k", {"typ_j": {"lit": ["a"]}, "doc": "[FK(t.c)] x"}]])),
+    ("C05-id-column-replaced", _w([["id", {"typ_j": {"n": "str"}, "doc": "the id"}]], force=True)),
+    ("C05-table-drops-header-doc", _w([["id", {"typ_j": {"n": "int"}, "doc": "[PK] key"}]], doc="Summary line.")),
+    ("C05-numpydoc-returns-comment-unparseable", _w([["id", {"typ_j": {"n": "int"}, "doc": "[PK] key"}]], doc="Summary line.", returns={"typ": "int", "doc": "the result"}, style="numpydoc")),
+]
 
 
 # ------------------------------------------------------------------------------------------------------------
@@ -729,14 +736,22 @@ def run(chk: core.Check) -> int:
         chk.oblige("tables: Gen.SqlTables = imported column_type2typ / typ2column_type / sqlalchemy_top_level_imports", "correspondence", ok,
                    "" if ok else "model tables differ from the imported ones (or a non-str entry exists)")
     # ---- (1) whole interfaces: three emissions × parse, oracle -------------------------------------------------
-    n_cases = 700 if chk.quick else 12000
+    n_cases = 4000 if chk.quick else 60000
     cases = [gen_case_dom(rng, returns_p=0.08) for _ in range(n_cases)]
     # fixed corner cases
     for names in (["id"], ["id", "dataset_name"], ["_id"], ["_rev"], [], ["dataset_name", "tbl_name"], ["params", "id"], ["valid_from"]):
         for force in (False, True):
             cases.append({"name": "Foo", "doc": "Summary line.", "returns": None, "style": "rest", "force": force, "markers": ["plain"] * len(names),
                           "params": [[nm, {"typ_j": {"n": "str"}, "typ": "str", "doc": "the %s" % nm}] for nm in names]})
+    cases += [w for _, w in WITNESSES]
     res = core.pmap(impl_case, cases, chunksize=32)
+    # every listed finding must still be reproduced by its witness (otherwise the line is stale)
+    for (fid, w), r in zip(WITNESSES, res[-len(WITNESSES):]):
+        ids = {(chk.kf.match(sig) or {}).get("id") for sig, _ in oracle(w, r)}
+        for it in chk.kf.items:
+            it["seen"] = 0
+        if fid not in ids:
+            chk.notes.append("known finding %s is no longer reproduced by its witness (stale line in known_findings.d/C05.txt?)" % fid)
     model = core.model_batch([{"op": "c05.case", "name": c["name"], "force": c["force"], "has_doc": bool(c["doc"] or (c.get("returns") or {}).get("doc")),
                                "params": [[nm, to_model_param(p)] for nm, p in c["params"]]} for c in cases]) if have_driver else None
     cov = {"n_params": {}, "typ_class": {}, "default_kind": {}, "marker": {}, "n_candidates": {}, "force": {}, "style": {}, "names": {}, "header_doc_empty": {}, "returns": {},
@@ -820,7 +835,7 @@ def run(chk: core.Check) -> int:
                 chk.disagreement("C05 correspondence: ensure_has_primary_key", {"fn": "case", "case": c}, r["ensure_pk"], m)
         chk.oblige("correspondence: ensure_has_primary_key = Sql.ensurePK (%d parameter dicts)" % len(cases), "correspondence", n_dis["ensure_pk"] == 0, "%d disagreements" % n_dis["ensure_pk"])
     # ---- (2) single parameters, in and out of the domain (malformed markers, odd types) -------------------------------
-    n_odd = 2500 if chk.quick else 40000
+    n_odd = 8000 if chk.quick else 120000
     items = []
     for _ in range(n_odd):
         name, p = gen_param_odd(rng)
@@ -866,9 +881,9 @@ def run(chk: core.Check) -> int:
         chk.oblige("correspondence: param_to_sqlalchemy_column_calls = Sql.paramToColumn (%d parameters, in and out of the domain)" % len(items), "correspondence", n_col == 0, "%d disagreements" % n_col)
         chk.oblige("correspondence: column_call_to_param = Sql.columnToParam on %d rendered columns" % len(cols_for_parse), "correspondence", n_colparse == 0, "%d disagreements" % n_colparse)
     # ---- (3) parse side alone: arbitrary Column calls; class bodies by statement kind --------------------------------------
-    cols = [gen_column(rng) for _ in range(2500 if chk.quick else 40000)]
+    cols = [gen_column(rng) for _ in range(8000 if chk.quick else 120000)]
     rc = core.pmap(impl_parse_column, cols, chunksize=128)
-    bodies = [gen_class_body(rng) for _ in range(800 if chk.quick else 10000)]
+    bodies = [gen_class_body(rng) for _ in range(3000 if chk.quick else 40000)]
     rb = core.pmap(impl_parse_class, bodies, chunksize=64)
     if have_driver:
         mc = core.model_batch([{"op": "c05.parse_column", "column": c} for c in cols])
@@ -912,9 +927,12 @@ def replay(path: str) -> int:
         return 0
     c = d["case"]
     r = impl_case(c)
-    bad = list(oracle(c, r))
-    for sig, what in bad:
-        print("replay:", what, sig)
+    kf = core.KnownFindings("C05")
+    bad = 0
+    for sig, what in oracle(c, r):
+        known = kf.match(sig)
+        print("replay:", "KNOWN-FINDING %s:" % known["id"] if known else "FAILS:", what, sig)
+        bad += known is None
     if not bad:
-        print("replay: property holds")
+        print("replay: property holds (apart from listed findings)")
     return 1 if bad else 0
